@@ -68,6 +68,8 @@ pub fn specs() -> Vec<PropSpec> {
         if let Some(p) = v.iter_mut().find(|p| p.id == "C16") {
             p.stages.push(Stage { engine: || Box::new(crate::strings::StrEngine { split_mix: true }), quick_cases: 100_000, thorough_cases: 2_000_000 });
         }
+        prop!("C17", Stage { engine: || Box::new(crate::lockstep::LockEngine), quick_cases: 200_000, thorough_cases: 5_000_000 });
+        prop!("C19", Stage { engine: || Box::new(crate::pool::PoolEngine), quick_cases: 6_000, thorough_cases: 100_000 });
         // C12: the real-arena half rides on engine A
         if let Some(p) = v.iter_mut().find(|p| p.id == "C12") {
             p.stages.push(arena!("C12", 120_000, 3_000_000));
